@@ -65,6 +65,31 @@ CLAIMED = {
         "Keypoints that coincide in float32 (softmax underflow / below resolution) are recorded as the documented "
         "floating-point limit, not as violations.",
         "DESIGN.md section 3 (C05)"),
+    "C09": (
+        "TLA+ model of multi-unit / batched operations as the pointwise lift of an uninterpreted per-unit function; "
+        "differential trace validation by TLC (Multi events must agree with the memo of Single events)",
+        "The model states column-wise equality, permutation equivariance and stability under sub-selection for the "
+        "lift of any function (TLC, all functions over a small domain). On the real code every subject - the five "
+        "weight constraints (incl. lattice finalize with trusts and bounds, where reductions over 'all axes but the "
+        "last' could couple units), the five layers' outputs per unit and per example, CDF, cdf_fn, pwl_calibration_fn "
+        "and a premade model per example - is observed column by column / example by example (Single) and then in "
+        "ordered pairs, triples, permutations and sub-selections (Multi); TLC validates each trace statefully: every "
+        "Multi entry must equal the remembered Single observation, repeated observations must be consistent.",
+        "Differential between real observations only (no model of the functions), so it cannot raise a false alarm "
+        "through model error; subjects and kernels are seeded samples.",
+        "DESIGN.md section 3 (C09)"),
+    "C12": (
+        "TLA+ oracle for every covered constraint kind and an injection state machine model-checked by TLC; real "
+        "assert_constraints outcomes judged by TLC against the oracle",
+        "AssertOps defines, per layer kind and in the assertion's own measure, when every covered constraint holds up "
+        "to a tolerance; AssertOracle starts from every feasible vector of a small grid (enumerated by TLC) and changes "
+        "one entry at every location in both directions by 4*eps and by 1; TLC checks the oracle is consistent. The "
+        "same base vectors and injections are assigned to real Lattice / PWLCalibration / Linear / "
+        "CategoricalCalibration / KroneckerFactoredLattice / RTL layers and assert_constraints(eps) is executed "
+        "eagerly; TLC validates each outcome: a clear violation (> 3 eps) must fail, exact feasibility must pass.",
+        "eps in {1e-6, 1e-3, 1/4}; violations between eps and 3 eps are not judged; the repaired categorical defect "
+        "is listed as fixed.",
+        "DESIGN.md section 3 (C12)"),
     "C19": (
         "TLA+ transcription of custom_reduce_prod's gradient formula checked equal to the product's derivative for "
         "every zero pattern by TLC; real tf.GradientTape gradients validated by TLC",
